@@ -151,8 +151,11 @@ def worker():
                 if sc.startswith("swc"):
                     fname = "morph_minimal.swc" if sc == "swc" else "morph_250_single_point_soma.swc"
                     m = jx.read_swc(os.path.join(os.environ.get("VERIF_REPO", "/repo"), "tests/swc_files", fname), ncomp=2)
-                    from jaxley.channels import HH
-                    m.insert(HH())
+                    from jaxley.channels import HH, Leak
+                    hh = HH()
+                    hh.channel_params["HH_gNa"] = 0.2          # a mechanism object whose defaults were customised before insertion
+                    m.insert(hh)
+                    m.branch(0).insert(Leak().change_name("pas"))
                     m.branch(1).add_to_group("g")
                     m.branch(0).comp(0).stimulate(jnp.asarray([0.1, 0.2, 0.3]), verbose=False)
                     m.branch(2).make_trainable("radius", verbose=False)
@@ -178,6 +181,10 @@ def worker():
                             {k: np.asarray(v).tolist() for k, v in x.external_inds.items()},
                             [{k: np.asarray(v).tolist() for k, v in d.items()} for d in x.trainable_params],
                             [np.asarray(i).tolist() for i in x.indices_set_by_trainables],
+                            [(c_._name, c_.current_name, sorted((k, float(v)) for k, v in c_.channel_params.items()),
+                              sorted((k, float(v)) for k, v in c_.channel_states.items())) for c_ in x.channels],
+                            [(s_._name, sorted((k, float(v)) for k, v in s_.synapse_params.items())) for s_ in (x.synapses or []) if s_ is not None],
+                            list(x.membrane_current_names),
                             np.asarray(x.ncomp_per_branch).tolist(), np.asarray(x.comb_parents).tolist(),
                             np.asarray(x.cumsum_ncomp).tolist(), repr([np.asarray(a).tolist() for a in x.xyzr][:3]))
                 d0 = digest(m)
